@@ -7,7 +7,9 @@
      O <OK | MISSED <msg> | DUMMY <slot> <kind> | NOTDISPATCHED | BROKEN <why> | NOMETHOD | INVALID>
        | <allowed calls K:kernel ...> | routes=<0|1> sufficient=<0|1> declared=<KDF subset> uses=<KDF subset>
    SUMMARY prints lines "M <method> declared=.. uses=.. uses_ok=.. refs=..", "R <order> <entry> <0|1>",
-   "S <method> <order> <entry> <0|1>" (only failures for R and S), "D dispatch_ok=<0|1>", "END". *)
+   "S <method> <order> <entry> <0|1>" (only failures for R and S), "D dispatch_ok=<0|1>",
+   "K <callback class> <has the dummy typedef>", "D callback_classes_ok=<0|1>", "D derefs_ok=<0|1> sites=<n>", "X <file> | <snippet>" for every dereference of a
+   data iterator that is not a callback argument, "END". *)
 open C13_model
 
 let ascii_of_char c =
@@ -75,6 +77,10 @@ let summary () =
           Printf.printf "S %s %s %s 0\n" (of_coq m.md_name) (kinds_str o) (entry_str en)) u.u_methods
     end) all_entries) all_orders;
   Printf.printf "D dispatch_ok=%s\n" (b01 (dispatch_ok u));
+  List.iter (fun ((n, mk), _) -> Printf.printf "K %s %s\n" (of_coq n) (b01 mk)) u.u_callback_classes;
+  Printf.printf "D callback_classes_ok=%s\n" (b01 (callback_classes_ok u));
+  Printf.printf "D derefs_ok=%s sites=%d\n" (b01 (derefs_ok u)) (List.length u.u_derefs);
+  List.iter (fun ((f, sn), ok) -> if not ok then Printf.printf "X %s | %s\n" (of_coq f) (of_coq sn)) u.u_derefs;
   print_endline "END"
 
 let () =
